@@ -53,7 +53,8 @@ fn gen_stream(rng: &mut Rng, class: usize) -> Stream {
             let len = rng.range(1, 6);
             // half of the streams carry blanks inside their string values (a cut may fall
             // directly behind one)
-            let prefix = *rng.pick(&["s", "s a  b "]);
+            // ... or characters of 2, 3 and 4 bytes (a cut may fall inside one)
+            let prefix = *rng.pick(&["s", "s a  b ", "s\u{fc}\u{65e5}\u{1f600}"]);
             let reqs = random_seq(rng, ALL_KINDS, len, prefix, 10);
             // optionally end with an incomplete message
             let mut bytes = seq_bytes(&reqs);
@@ -63,7 +64,7 @@ fn gen_stream(rng: &mut Rng, class: usize) -> Stream {
                     Req::new(Kind::Echo, Flags { more: false, oneway: false }, "partial").to_bytes()
                 } else {
                     // layout between the tokens and blanks inside the value
-                    b"{ \"method\" : \"org.verif.t.Echo\",\r\n\t\"parameters\" : { \"token\" : \"par tial  x \" } }\0".to_vec()
+                    "{ \"method\" : \"org.verif.t.Echo\",\r\n\t\"parameters\" : { \"token\" : \"par tial  x \u{e4}\u{20ac}\u{1f600} \" } }\0".as_bytes().to_vec()
                 };
                 let k = rng.range(1, extra.len() - 1);
                 bytes.extend_from_slice(&extra[..k]);
